@@ -285,6 +285,9 @@ pub fn c02(opts: &Opts) -> Report {
         dopt.sched = false;
         run_family(&mut rep, opts, &FamilyRun { prop: "C02", part: "roomy", cases: opts.n(if cfg!(miri) { 2 } else { 200 }, 5000), gen: &|s| gen::gen_dag(s, &dopt), set: ExecSet::Full, pools: &[CHANNEL_SITES], nontrivial: &|s, _| s.causal_pairs_indirect > 0, predict: true, also: &[] });
     }
+    if want(opts, "stream") {
+        crate::props::storm::event_stream(&mut rep, opts, "C02");
+    }
     if want(opts, "mt") {
         let dopt = dag_opts(opts);
         run_family(&mut rep, opts, &FamilyRun { prop: "C02", part: "mt", cases: opts.n(if cfg!(miri) { 3 } else { 250 }, 8000), gen: &|s| gen::gen_dag(s, &dopt), set: ExecSet::MtHeavy, pools: &[CHANNEL_SITES], nontrivial: &|s, _| s.causal_pairs_indirect > 0, predict: true, also: &[] });
@@ -297,6 +300,9 @@ pub fn c03(opts: &Opts) -> Report {
     let mut dopt = dag_opts(opts);
     if want(opts, "dag") {
         run_family(&mut rep, opts, &FamilyRun { prop: "C03", part: "dag", cases: opts.n(if cfg!(miri) { 4 } else { 300 }, 8000), gen: &|s| gen::gen_dag(s, &dopt), set: ExecSet::Full, pools: &[CHANNEL_SITES, EXECUTOR_SITES], nontrivial: &|s, _| s.deliveries_checked > 0 && (s.suspended_handlers > 0 || s.sink_events > 0), predict: true, also: &[] });
+    }
+    if want(opts, "stream") {
+        crate::props::storm::event_stream(&mut rep, opts, "C03");
     }
     dopt.max_cap = 16;
     if want(opts, "roomy") {
